@@ -328,6 +328,56 @@ def rule_cursors(ctx, db):
         inner = [bb for bb, _ in calls(f, r"compio_io::write::AsyncWrite::flush$")]
         ctx.ob("R5", "bufwriter-flush-reaches-the-inner-writer", bool(ft) and bool(inner) and all(any(f.cfg.dominates(a, b) for a in ft) for b in inner),
                "flush() first empties the buffer into the inner writer (flush_to) and then calls the inner writer's flush()", f)
+    # ---- a reader that fills from index 0 records the length absolutely (advance_to), never relatively (advance)
+    rel = []
+    for f in db.fns.values():
+        if not f.id.startswith(("compio_io::read::", "compio_io::util::")):
+            continue
+        if calls(f, r"SetLenExt::advance$"):
+            rel.append(f)
+    ctx.ob("R5", "readers-record-lengths-absolutely", not rel,
+           "no reader / utility in compio-io calls the relative SetLenExt::advance (found in: %s); after filling a buffer from "
+           "its start the new length is the count, not old length + count" % (", ".join(db.root_fn(f).name for f in rel) or "none"),
+           rel[0] if rel else None)
+    # ---- capacity 0 still leaves room for one byte
+    for nm, fam_rx, callee in (("BufReader", r"^compio_io::read::buf::BufReader::<R>::with_capacity$", r"Buffer::with_capacity$"),
+                               ("BufWriter", r"^compio_io::write::buf::BufWriter::<W>::with_capacity$", r"Buffer::with_capacity$"),
+                               ("copy_with_size", r"^compio_io::util::copy::copy_with_size$", r"Vec::<T>::with_capacity$|Vec::<T, A>::with_capacity$")):
+        fam = _family(db, fam_rx)
+        if not fam:
+            ctx.missing("R5", nm + " constructor")
+            continue
+        ok = False
+        for f in fam:
+            for bb, t in calls(f, callee):
+                pl = op_place(t["args"][0])
+                if pl is None:
+                    continue
+                locs, cr, _pl = data_deps(f, pl["l"])
+                if any(call_matches(ct, r"core::cmp::Ord::max$") and any(str(a.get("v")) == "1" for a in ct["args"] if "k" in a) for _, ct in cr):
+                    ok = True
+        ctx.ob("R5", "capacity-at-least-one:" + nm, ok, "the internal buffer is created with max(capacity, 1) bytes: capacity 0 "
+               "would make an empty refill look like EOF / accept nothing", fam[0])
+    # ---- BufWriter::write: once the bytes are in the buffer the call cannot fail any more
+    for m in ("write", "write_vectored"):
+        fam = [f for f in _family(db, r"^<compio_io::write::buf::BufWriter<W> as compio_io::write::AsyncWrite>::%s$" % m) if f.kind == "coroutine"]
+        for f in fam:
+            ws = [bb for bb, _ in calls(f, r"Buffer::<B>::with_sync$")]
+            if not ws:
+                continue
+            late = [bb for bb, t in calls(f, r"BufWriter::<W>::flush_if_needed$") if any(f.cfg.dominates(w, bb) for w in ws)]
+            # the awaited result of a late flush must not reach the return value through `?`
+            bad = False
+            for bb, t in calls(f, r"Try::branch$|FromResidual.*::from_residual$"):
+                pl = op_place(t["args"][0]) if t.get("args") else None
+                if pl is None:
+                    continue
+                locs, cr, _pl = data_deps(f, pl["l"])
+                if any(f.cfg.dominates(w, bb) for w in ws) and any(call_matches(ct, POLL) and any(f.cfg.dominates(lb, cb) for lb in late) for cb, ct in cr):
+                    bad = True
+            ctx.ob("R5", "bufwriter-write-cannot-fail-after-accepting:" + m, bool(late) and not bad,
+                   "after the bytes were copied into the buffer the trailing flush cannot turn the call into an error (a retry "
+                   "of write_all / copy would buffer the same bytes twice)", f)
     # ---- Take
     tr = [f for f in db.fns.values() if f.kind == "coroutine" and f.name.startswith("<compio_io::util::take::Take<R> as compio_io::read::AsyncRead>::read::")]
     if not tr:
